@@ -102,10 +102,14 @@ def ev_apply(b, doc, di, step, st=None, tag=""):
     if d2 is not None:
         try:
             mr = map_ranges(step)
-            idm = b.add({"ev": "StepMap", "di": di, "step": st, "res": res, "out": ev["out"], "map": mr, "tag": tag})
+            # the library's own mapping of every position of the old document (forward and backward side)
+            m = step.get_map()
+            n = doc.content.size
+            mapped = [[m.map(p, 1), m.map(p, -1)] for p in range(n + 1)] if n <= 400 else []
+            idm = b.add({"ev": "StepMap", "di": di, "step": st, "res": res, "out": ev["out"], "map": mr, "mapped": mapped, "tag": tag})
         except Exception as ex:  # noqa: BLE001
             idm = b.add({"ev": "StepMap", "di": di, "step": st, "res": {"kind": "raise", "cls": type(ex).__name__},
-                         "out": ev["out"], "map": [], "tag": tag})
+                         "out": ev["out"], "map": [], "mapped": [], "tag": tag})
     return ida, idm, d2
 
 
@@ -292,11 +296,11 @@ class StepGen:
                 pass
             names = list(node.attrs) if node is not None and node.attrs else ["level", "zz"]
             a = r.choice(names) if r.random() < 0.9 else "undeclared"
-            from .gen import ATTR_POOL, GENERIC_VALUES
+            from .gen import ATTR_POOL, FALSY_VALUES, GENERIC_VALUES
             import copy
-            return AttrStep(f, a, copy.deepcopy(r.choice(ATTR_POOL.get(a, GENERIC_VALUES))))
+            return AttrStep(f, a, copy.deepcopy(r.choice(ATTR_POOL.get(a, GENERIC_VALUES) + FALSY_VALUES)))
         top_attrs = list(doc.attrs) or ["meta"]
-        from .gen import ATTR_POOL, GENERIC_VALUES
+        from .gen import ATTR_POOL, FALSY_VALUES, GENERIC_VALUES
         a = r.choice(top_attrs)
         import copy
-        return DocAttrStep(a, copy.deepcopy(r.choice(ATTR_POOL.get(a, GENERIC_VALUES))))
+        return DocAttrStep(a, copy.deepcopy(r.choice(ATTR_POOL.get(a, GENERIC_VALUES) + FALSY_VALUES)))
